@@ -4,7 +4,7 @@
    handed over by the JASPAR readers). *)
 From Coq Require Import List NArith ZArith Bool Arith Lia.
 From LMBase Require Import Res ListX IEEE.
-From LMIo Require Import IoBase IoNom IoJaspar IoUniprobe IoNomProofs.
+From LMIo Require Import GenIoAbc IoBase IoNom IoJaspar IoUniprobe IoNomProofs.
 Import ListNotations.
 
 Definition lf_spec {A} : list N -> A -> Prop := fun pre _ => ends_lf pre.
@@ -51,11 +51,16 @@ Qed.
 Lemma j_build_matrix_safe : forall a c g t,
   match j_build_matrix a c g t with Panic _ | OutOfFuel => False | _ => True end.
 Proof.
-  intros a c g t. unfold j_build_matrix. cbn [j_build_loop].
-  destruct (length a =? _); [|exact I]. cbn [Nat.ltb Nat.leb].
-  destruct (length c =? _); [|exact I].
-  destruct (length g =? _); [|exact I].
-  destruct (length t =? _); exact I.
+  (* every as_index of the generated symbol array of parse::matrix is below the generated K *)
+  intros a c g t. unfold j_build_matrix.
+  assert (H : forallb (fun k => k <? aK Dna) (map snd GenIoAbc.gen_jaspar_symbols) = true)
+    by (vm_compute; reflexivity).
+  revert H. generalize (new_matrix 0%N (aK Dna) (length a)).
+  generalize (map snd GenIoAbc.gen_jaspar_symbols). generalize [a; c; g; t]. generalize (aK Dna).
+  intros K cs. induction cs as [|x cs IH]; intros ks m H; [exact I|].
+  destruct ks as [|k ks]; [exact I|]. cbn [combine j_build_loop]. cbn [forallb] in H.
+  apply andb_prop in H. destruct H as [H1 H2].
+  destruct (length x =? length m); [|exact I]. rewrite H1. apply IH. exact H2.
 Qed.
 
 Lemma pspec_j_matrix : pspec lf_spec (j_matrix false).
@@ -153,6 +158,12 @@ Section J16.
   (* ---------- UniPROBE ---------- *)
   Variable parse_f32 : list N -> option F32.t.
 
+  Lemma pgood_u_col_end_of : forall b, pgood (u_col_end_of b).
+  Proof.
+    intros [|]; unfold u_col_end_of; [apply pspec_alt; [eapply pspec_good; exact pspec_line_ending|exact pgood_eof]
+                                     |eapply pspec_good; exact pspec_line_ending].
+  Qed.
+
   Lemma pgood_u_frequencies : pspec (fun _ l => l <> []) (u_frequencies parse_f32).
   Proof.
     unfold u_frequencies. eapply pspec_weaken.
@@ -165,7 +176,7 @@ Section J16.
   Proof.
     unfold u_matrix_column. eapply pspec_terminated.
     { eapply pspec_separated_pair; [exact pspec_symbol|apply pgood_char|exact pgood_u_frequencies]. }
-    intros p1 a [[p0 q] _]. eapply pspec_weaken; [|exact pspec_line_ending]. intros pre x _. exact q.
+    intros p1 a [[p0 q] _]. eapply pspec_weaken; [|exact (pgood_u_col_end_of GenIoAbc.gen_uniprobe_col_eof)]. intros pre x _. exact q.
   Qed.
 
   Lemma pgood_u_id : pgood u_id.
